@@ -23,7 +23,12 @@ GEN_LEDGER = dict(module="Gen_Ledger", cfg="Gen_Ledger.cfg")
 MC_DERIVE = dict(module="MC_Derive", cfg="MC_Derive.cfg", cfg_thorough="MC_Derive_thorough.cfg", workers=8)
 GEN_DERIVE = dict(module="Gen_Derive", cfg="Gen_Derive.cfg", cfg_thorough="Gen_Derive_thorough.cfg")
 
+MC_DECODER = dict(module="MC_Decoder", cfg="MC_Decoder.cfg", cfg_thorough="MC_Decoder_thorough.cfg", workers=8, timeout=2400)
+
 PROPS = {
+    "C20": dict(level="model_checking", mc=[MC_FORMAT], steps=[dict(kind="custom", fn="feature_builds")],
+        rule="one deterministic corpus (the C01 values and the C03 byte strings of every type available in the configuration, fixed seed) through one build "
+             "per feature configuration; each build's records validated by TLC against the same specification and compared across builds by (kind, type, case)"),
     "C05": dict(level="model_checking", mc=[MC_DERIVE],
         pre=[dict(kind="gen_vectors", mc=GEN_DERIVE, out="dlayout.ndjson", env={"WHAT": "layout"}),
              dict(kind="custom", fn="gen_rust_types", vectors="dlayout.ndjson", count=dict(quick=120, thorough=600))],
@@ -36,7 +41,7 @@ PROPS = {
         rule="enum definitions over {index attribute, explicit discriminant, implicit position, skip} with indices in {0,1,2,255,256,300}, enumerated by TLC, "
              "sampled by seed, each invalid one paired with a minimally different valid twin, plus the finite attribute-conflict / union / CompactAs / 256-vs-257 cases; "
              "each program is its own compilation target; distinct by definition"),
-    "C09": dict(level="model_checking", mc=[MC_FORMAT], steps=[trace(1, 3)]),
+    "C09": dict(level="model_checking", mc=[MC_DECODER], steps=[trace(1, 3)]),
     "C10": dict(level="fault_enumeration", mc=[MC_LEDGER], steps=[
         dict(kind="gen_vectors", mc=GEN_LEDGER, out="lvec.ndjson"),
         trace(1, 1, tag="faults", vectors="lvec.ndjson"),
@@ -57,12 +62,12 @@ PROPS = {
             "non-trivial = at least one byte, distinct by (width, kind, bytes, value)"),
     "C01": dict(level="model_checking", mc=[MC_FORMAT], steps=[trace()]),
     "C02": dict(level="model_checking", mc=[MC_FORMAT], steps=[trace(1, 4)]),
-    "C03": dict(level="model_checking", mc=[MC_FORMAT], steps=[trace(2, 16)]),
-    "C08": dict(level="model_checking", mc=[MC_FORMAT], steps=[trace(1, 2)]),
-    "C11": dict(level="model_checking", mc=[MC_FORMAT], steps=[trace(1, 6)]),
-    "C12": dict(level="model_checking", mc=[MC_FORMAT], steps=[trace(1, 4)]),
+    "C03": dict(level="model_checking", mc=[MC_DECODER], steps=[trace(2, 16)]),
+    "C08": dict(level="model_checking", mc=[MC_DECODER], steps=[trace(1, 2)]),
+    "C11": dict(level="model_checking", mc=[MC_DECODER], steps=[trace(1, 6)]),
+    "C12": dict(level="model_checking", mc=[MC_DECODER], steps=[trace(1, 4)]),
     "C13": dict(level="model_checking", mc=[MC_FORMAT], steps=[trace(1, 10)]),
     "C14": dict(level="model_checking", mc=[MC_FORMAT], steps=[trace(2, 12)]),
     "C18": dict(level="model_checking", mc=[MC_FORMAT], steps=[trace(2, 12)]),
-    "C19": dict(level="model_checking", mc=[MC_FORMAT], steps=[trace(1, 6)]),
+    "C19": dict(level="model_checking", mc=[MC_DECODER], steps=[trace(1, 6)]),
 }
